@@ -17,6 +17,8 @@ func init() { register("C01", runC01) }
 
 func runC01(c *mon.Ctx) {
 	switch flagMode {
+	case "lifecycle":
+		c.Cases(func(i int, r *mon.Rand) { lifecycleCase(c, r, "C01") })
 	case "stress":
 		c.Cases(func(i int, r *mon.Rand) { c01Stress(c, r) })
 	default:
@@ -219,8 +221,24 @@ func c01Stress(c *mon.Ctx, r *mon.Rand) {
 		}
 		opts.Reporter = pr
 	}
+	// a third of the runs use a sanitizer that rewrites the tag values of the
+	// close/re-request workers, so that their scope is registered under several
+	// raw spellings besides its sanitized key (one object reached from two keys)
+	withSan := r.Chance(1, 3)
+	if withSan {
+		so := tally.SanitizeOptions{
+			NameCharacters:       tally.ValidCharacters{Ranges: tally.AlphanumericRange, Characters: tally.UnderscoreDashDotCharacters},
+			KeyCharacters:        tally.ValidCharacters{Ranges: tally.AlphanumericRange, Characters: tally.UnderscoreCharacters},
+			ValueCharacters:      tally.ValidCharacters{Ranges: tally.AlphanumericRange, Characters: tally.UnderscoreCharacters},
+			ReplacementCharacter: '_',
+		}
+		opts.SanitizeOptions = &so
+	}
 	interval := time.Duration(r.Range(50, 200)) * time.Microsecond
 	shards := uint(r.Range(0, 4)) // 0 = the public constructor (GOMAXPROCS shards)
+	if withSan && shards != 1 {
+		shards = 1 // spellings of one identity share a scope only within one shard
+	}
 	nScopes := r.Range(1, 30)
 	perScope := r.Range(5, 40)
 	nWorkers := r.Range(2, 6)
@@ -230,7 +248,7 @@ func c01Stress(c *mon.Ctx, r *mon.Rand) {
 	prof := mon.RandomProfile(r, []int{tally.VerifCtrLoaded1, tally.VerifCtrLoaded2, tally.VerifRegScopeReported, tally.VerifPassBegin, tally.VerifPassLocked,
 		tally.VerifReacquireBeforeReport, tally.VerifRemoveHandover1, tally.VerifRemoveHandover2, tally.VerifCloseEnter, tally.VerifCloseBeforeFinal, tally.VerifSubscopeUpgrade}, r.Intn(3))
 	inj := mon.NewDelayInjector(r.U64(), prof, true)
-	desc := map[string]interface{}{"cached": cached, "both_reporter_kinds_configured": both, "interval_us": interval.Microseconds(), "shards": shards, "scopes": nScopes, "counters_per_scope": perScope,
+	desc := map[string]interface{}{"cached": cached, "both_reporter_kinds_configured": both, "sanitizer_rewriting_reacquired_tags": withSan, "interval_us": interval.Microseconds(), "shards": shards, "scopes": nScopes, "counters_per_scope": perScope,
 		"workers": nWorkers, "reacquire_workers": nReacq, "manual_passers": nPassers, "iterations": iters, "delay_strength": prof.Strength}
 	c.LogCase(fmt.Sprint(desc))
 	stopWatch := c.Watchdog(300*time.Second, "no-progress(deadlock?)", desc)
@@ -304,7 +322,12 @@ func c01Stress(c *mon.Ctx, r *mon.Rand) {
 			defer wg.Done()
 			name := fmt.Sprintf("re%d", w)
 			for i := 0; i < iters/4; i++ {
-				sc := root.SubScope(name)
+				var sc tally.Scope
+				if withSan {
+					sc = root.Tagged(map[string]string{"id": name + []string{"_", ".", "-", ":"}[i%4] + "x"})
+				} else {
+					sc = root.SubScope(name)
+				}
 				cn := sc.Counter("c")
 				n := wr.Range(1, 3)
 				for j := 0; j < n; j++ {
@@ -380,7 +403,11 @@ func c01Stress(c *mon.Ctx, r *mon.Rand) {
 			}
 		}
 		for w := 0; w < nReacq; w++ {
-			a := agg[mon.IdentKey(fmt.Sprintf("re%d.c", w), nil)]
+			reKey := mon.IdentKey(fmt.Sprintf("re%d.c", w), nil)
+			if withSan {
+				reKey = mon.IdentKey("c", map[string]string{"id": fmt.Sprintf("re%d_x", w)})
+			}
+			a := agg[reKey]
 			if a.Sum != reSums[w] {
 				c.Violation("conservation-reacquire", map[string]interface{}{"why": fmt.Sprintf("re%d.c: delivered total %d, incremented total %d (close + immediate re-request cycles)", w, a.Sum, reSums[w]), "case": desc})
 			}
